@@ -149,6 +149,11 @@ fn event_name(env: &Env, e: usize) -> String {
 
 /// run one history from scratch on fresh worker threads; the reference is evaluated alongside
 fn run_history(acc: &mut Acc, env: &Env, hist: &[usize], base_ns: u64, initial: usize, primed: bool, real_clock: bool, states: &mut std::collections::BTreeSet<(usize, u8, u8, u8)>) {
+    run_history_obs(acc, env, hist, base_ns, initial, primed, real_clock, states, None)
+}
+
+#[allow(clippy::too_many_arguments)]
+fn run_history_obs(acc: &mut Acc, env: &Env, hist: &[usize], base_ns: u64, initial: usize, primed: bool, real_clock: bool, states: &mut std::collections::BTreeSet<(usize, u8, u8, u8)>, mut obs: Option<&mut Vec<Sig>>) {
     set_tz(&env.tz[initial]);
     let mut now: u64 = 0; // ns since the start of the history
     if !real_clock {
@@ -236,6 +241,9 @@ fn run_history(acc: &mut Acc, env: &Env, hist: &[usize], base_ns: u64, initial: 
                 match got {
                     Err(p) => acc.violation("conversion:panic", call(), "a conversion".into(), format!("panic: {}", p)),
                     Ok(sig) => {
+                        if let Some(o) = obs.as_deref_mut() {
+                            o.push(sig);
+                        }
                         let matches_cur = sig == env.sig[cur];
                         let ok = allowed.iter().any(|&a| env.sig[a] == sig);
                         if !ok {
@@ -359,6 +367,19 @@ fn worker_main(spec_arg: &str, tier: Tier) -> ! {
     let base_ns = SystemTime::now().duration_since(UNIX_EPOCH).unwrap().as_nanos() as u64 + 10_000_000_000;
     let mut acc = Acc::new(CLASSES.len(), i);
     let mut states = std::collections::BTreeSet::new();
+    if !real {
+        // the harness must own every source of nondeterminism: the same history observed twice gives the same trace
+        let h = [2usize, 13, 6, 11, 13, 12, 14, 16, 15];
+        let mut o1 = vec![];
+        let mut o2 = vec![];
+        let mut scratch = Acc::new(CLASSES.len(), i);
+        run_history_obs(&mut scratch, &env, &h, base_ns, 0, true, false, &mut states, Some(&mut o1));
+        run_history_obs(&mut scratch, &env, &h, base_ns, 0, true, false, &mut states, Some(&mut o2));
+        if o1 != o2 || o1.len() != 5 {
+            machinery(&format!("determinism self-test failed: the same history gave {:?} and then {:?}", o1, o2));
+        }
+        states.clear();
+    }
     if real {
         // hook-free conformance replay with real sleeps: a deterministic stride of short histories
         let total = count(3);
